@@ -58,14 +58,18 @@ def l606(*eps):
 
 
 def add_task(task):
-    bindir, rep, n, unit, eps = task
+    bindir, rep, n, unit, eps = task[:5]
+    more = list(task[5]) if len(task) > 5 else []      # further (n, unit) steps of the same invocation
     sh = Shard()
-    delta = n * UNIT[unit]
-    prs = [(e, e + delta) for e in eps if EP_MIN <= e + delta <= EP_MAX]
+    delta = n * UNIT[unit] + sum(k * UNIT[u] for k, u in more)
+    prs = [(e, e + delta) for e in eps if EP_MIN <= e + delta <= EP_MAX
+           and EP_MIN <= e + n * UNIT[unit] <= EP_MAX]
     if not prs:
         return sh
     lines = [dtext(rep, e)[0] for e, _ in prs]
     dstr = "%+d%s" % (n, unit)
+    if more:
+        return multi_add(sh, bindir, rep, [(n, unit)] + more, prs, lines)
     if rep == "epoch":
         # negative epochs only work as arguments
         # stdin lines for non-negative epochs and positive counts; a negative
@@ -124,6 +128,38 @@ def add_task(task):
                    dict(argv=argv, input=lines[k], expected=list(exps), observed=got), cls=c)
     if outs and outs[0]:
         sh.sample(dict(cmd=core.shq(argv), input=lines[0], output=outs[0]), cap=1)
+    return sh
+
+
+def multi_add(sh, bindir, rep, steps, prs, lines):
+    """several durations in ONE invocation: state left by one addition must not leak into the next"""
+    durs = ["%+d%s" % (k, u) for k, u in steps]
+    if rep == "epoch":
+        keep = [i for i, l in enumerate(lines) if not l.startswith("-")]
+        lines = [lines[i] for i in keep]
+        prs = [prs[i] for i in keep]
+        if steps[0][0] < 0 or not lines:
+            return sh
+        argv = [str(bindir / "dadd"), "-i", "%s", "-f", "%s", "--"] + durs
+    else:
+        argv = [str(bindir / "dadd"), "--"] + durs
+    r = run(argv, stdin=("\n".join(lines) + "\n").encode(), cpu=60, wall=300)
+    sh.procs += 1
+    sh.check_san(r, "san", "tadd:%s:multi:san" % rep)
+    outs, crash = align_lines(lines, r)
+    whole = any((k * UNIT[u]) % 86400 == 0 for k, u in steps[1:])
+    for k, got in enumerate(outs):
+        e, t = prs[k]
+        exps = dtext(rep, t)
+        first_crosses = (e + steps[0][0] * UNIT[steps[0][1]]) // 86400 != e // 86400
+        c = (rep, "multi%d" % len(steps), "first-crosses-midnight" if first_crosses else "first-same-day",
+             "then-whole-days" if whole else "then-partial")
+        if got in exps:
+            sh.ok("tadd-multi", c)
+        else:
+            sh.bad("tadd-multi", "tadd-multi:%s:%s:%s%s" % (rep, c[2], c[3], l606(e, t)),
+                   "dadd %s %s -> %r, epoch arithmetic says %s" % (lines[k], " ".join(durs), got, exps[0]),
+                   dict(argv=argv, input=lines[k], expected=list(exps), observed=got), cls=c)
     return sh
 
 
@@ -270,6 +306,17 @@ def main(tier, seed):
             unit = rng.choice("smh")
             n = rng.choice([1, -1]) * int(10 ** rng.uniform(0, {"s": 9.3, "m": 7.5, "h": 5.7}[unit]))
             tasks.append(("add", (bindir, rep, n, unit, rng.sample(base, 300))))
+    # multi-step invocations: first step crossing (or not) midnight, then whole-day or partial counts
+    whole = [(24, "h"), (48, "h"), (-24, "h"), (1440, "m"), (86400, "s"), (-86400, "s"), (172800, "s"), (2880, "m"), (384, "h")]
+    for rep in REPS:
+        for _ in range(30 if quick else 400):
+            first = (rng.choice([1, -1]) * rng.choice([1, 2, 5, 13, 23]), "h") if rng.random() < .6 else \
+                    (rng.choice([1, -1]) * rng.randrange(1, 90000), "s")
+            second = rng.choice(whole) if rng.random() < .7 else (rng.choice([1, -1]) * rng.randrange(1, 3000), rng.choice("smh"))
+            more = [second]
+            if rng.random() < .3:
+                more.append(rng.choice(whole))
+            tasks.append(("add", (bindir, rep, first[0], first[1], rng.sample(base, 250), more)))
     for _ in range(300 if quick else 4000):
         ea = rng.choice(base)
         ebs = [ea + rng.choice([1, -1]) * int(10 ** rng.uniform(0, 10.8)) for _ in range(80)]
